@@ -168,6 +168,7 @@ type aggregate struct {
 	DetRuns      int
 	DetMismatch  []int
 	Trouble      []string
+	Notes        []string
 }
 
 func (a *aggregate) merge(r *ChunkResult) {
@@ -200,6 +201,7 @@ func (a *aggregate) merge(r *ChunkResult) {
 	a.DetRuns += r.DetRuns
 	a.DetMismatch = append(a.DetMismatch, r.DetMismatch...)
 	a.Trouble = append(a.Trouble, r.HarnessErrors...)
+	a.Notes = append(a.Notes, r.Notes...)
 }
 
 func crashFacts(sc *sim.Scenario, stderr string) (map[string]string, string) {
@@ -590,6 +592,10 @@ func supervisorMain() int {
 	for _, v := range unknown {
 		fmt.Printf("violation rule=%s index=%d facts=%v\n  %s\n", v.Rule, v.Index, v.Facts, v.Detail)
 		fmt.Printf("VIOLATION property=%s replay=%s\n", cfg.Prop, v.Replay)
+	}
+	// not failures (nothing that replays), but never silent: counted in the evidence as well
+	for _, n := range agg.Notes {
+		fmt.Println("NOTE not-reproducible:", n)
 	}
 	if trouble {
 		for _, t := range agg.Trouble {
